@@ -19,6 +19,25 @@ fn single_layer(g: &mut Gen, spec: InnerSpec, input: Sh, label: &str) {
 
 pub fn generate(g: &mut Gen) {
     let cfg = ArchCfg::small();
+    // what a training run leaves behind: afterwards the network still computes the composition of its layers' operators
+    // (every layer kind with a dropout rate at top level — dense, convolution, deconvolution — with and without validation
+    // data; the prediction made after training is checked against the operators with the TRAINED parameters)
+    for kind in 0..3usize {
+        use crate::ops::scalar::OptSpec;
+        let c = ArchCfg { dropout: false, wscale: 0.5, ..ArchCfg::small() };
+        let (input, first, count) = match kind {
+            0 => (Shape::Triple(1, 3, 4), InnerSpec::Deconv { filters: 2, act: "tanh".into(), k: (2, 3), s: (1, 2), p: (0, 1), dropout: Some(0.5), ks: (0..2).map(|_| weights(g, &Shape::Triple(1, 2, 3), 0.5)).collect() }, 2 * 4 * 7),
+            1 => (Shape::Triple(2, 4, 5), InnerSpec::Conv { filters: 2, act: "tanh".into(), k: (2, 3), s: (1, 1), p: (0, 1), d: (1, 1), dropout: Some(0.5), ks: (0..2).map(|_| weights(g, &Shape::Triple(2, 2, 3), 0.5)).collect() }, 2 * 3 * 5),
+            _ => { let mut d = dense_spec(g, &c, 4, 6, "tanh", true); if let InnerSpec::Dense { dropout, .. } = &mut d { *dropout = Some(0.5); } (Shape::Single(4), d, 6) }
+        };
+        let builds = vec![Build::Layer(first), Build::Layer(dense_spec(g, &c, count, 2, "linear", true))];
+        let net = NetSpec { input: input.clone(), builds, skipacc: "add".into(), loopacc: "mean".into(), opt: Some(OptSpec::Sgd(0.05, None)), obj: "mse".into(), clamp: None };
+        let pair = |g: &mut Gen| format!("{} {}", qt(&input_for(g, &input)), qt(&target_for(g, &Sh::Flat(2), "mse")));
+        let s: Vec<String> = (0..3).map(|_| pair(g)).collect();
+        let v: Vec<String> = (0..2).map(|_| pair(g)).collect();
+        g.push(format!("net {} learn 3 {} 0 2 2 0", net.token(), s.join(" ")), Tol::Loose, &format!("after-training/kind{}", kind), true);
+        g.push(format!("net {} learn 3 {} 1 2 {} 5 2 2 0", net.token(), s.join(" "), v.join(" ")), Tol::Loose, &format!("after-training-with-validation/kind{}", kind), true);
+    }
     // deterministic core: stride, dilation in {1,2} x padding in {0,1}, rectangular shapes, every layer kind
     for s in 1..=2usize {
         for d in 1..=2usize {
